@@ -1037,7 +1037,7 @@ fn main() {
     if let Some(path) = args.replay.clone() {
         std::process::exit(replay(&args, &path));
     }
-    let nhist = args.opt("--histories").and_then(|s| s.parse().ok()).unwrap_or(args.pick(SCENARIOS + 27, SCENARIOS + 240));
+    let nhist = args.opt("--histories").and_then(|s| s.parse().ok()).unwrap_or(args.pick(SCENARIOS + 22, SCENARIOS + 240));
     if let Some(s) = args.opt("--shard-indices") {
         let indices: Vec<usize> = s.split(',').filter_map(|x| x.parse().ok()).collect();
         let res = shard_main(&args, &indices);
